@@ -152,10 +152,13 @@ theorem crc_known_answers :
 
 /-! ### retransmit phase -/
 
-/-- only marked records are retransmitted: a `transmit()` re-sends exactly the records that have
-`needs_retransmit` set, once, and clears the mark -/
+/-- only marked records that are not acknowledged are retransmitted: a `transmit()` re-sends exactly
+the records that have `needs_retransmit` set and are not (gap-)acked, once; every mark is cleared —
+also the stale mark of a record that was gap-acked after T3 / the tail-loss probe marked it (fix
+5ac86b5: that one used to leave as an empty chunk) -/
 theorem rexmit_only_marked : ∀ (q : List SRec) (flight now : Nat),
-    (rexmitPhase q flight now).2.2 = (q.filter (·.needsRetransmit)).map (fun r => TxItem.rexmit r.tsn r.len) ∧
+    (rexmitPhase q flight now).2.2 =
+      (q.filter (fun r => r.needsRetransmit && !r.acked)).map (fun r => TxItem.rexmit r.tsn r.len) ∧
     ∀ r ∈ (rexmitPhase q flight now).1, r.needsRetransmit = false := by
   intro q
   induction q with
@@ -163,23 +166,40 @@ theorem rexmit_only_marked : ∀ (q : List SRec) (flight now : Nat),
   | cons r rest ih =>
     intro f n
     unfold rexmitPhase
-    split
-    · next h =>
-      obtain ⟨a, b⟩ := ih (if r.inFlight then f else f + r.len) n
-      refine ⟨by simp [h, a], ?_⟩
+    by_cases h1 : (r.needsRetransmit && r.acked) = true
+    · obtain ⟨a, b⟩ := ih f n
+      rw [Bool.and_eq_true] at h1
+      simp only [h1.1, h1.2, Bool.and_self, if_true]
+      refine ⟨by simp [h1.1, h1.2, a], ?_⟩
       intro x hx
       simp only [List.mem_cons] at hx
       cases hx with
       | inl e => subst e; rfl
       | inr e => exact b x e
-    · next h =>
-      obtain ⟨a, b⟩ := ih f n
-      refine ⟨by simp [h, a], ?_⟩
-      intro x hx
-      simp only [List.mem_cons] at hx
-      cases hx with
-      | inl e => subst e; simpa using h
-      | inr e => exact b x e
+    · have h1' : (r.needsRetransmit && r.acked) = false := by simpa using h1
+      simp only [h1', Bool.false_eq_true, if_false]
+      by_cases h2 : r.needsRetransmit = true
+      · have hack : r.acked = false := by
+          cases hr : r.acked with
+          | false => rfl
+          | true => rw [h2, hr] at h1'; cases h1'
+        obtain ⟨a, b⟩ := ih (if r.inFlight then f else f + r.len) n
+        simp only [h2, if_true]
+        refine ⟨by simp [h2, hack, a], ?_⟩
+        intro x hx
+        simp only [List.mem_cons] at hx
+        cases hx with
+        | inl e => subst e; rfl
+        | inr e => exact b x e
+      · have h2' : r.needsRetransmit = false := by simpa using h2
+        obtain ⟨a, b⟩ := ih f n
+        simp only [h2', Bool.false_eq_true, if_false]
+        refine ⟨by simp [h2', a], ?_⟩
+        intro x hx
+        simp only [List.mem_cons] at hx
+        cases hx with
+        | inl e => subst e; exact h2'
+        | inr e => exact b x e
 
 
 /-- **wire_oracle_accepts_conforming** (was `model_traces_wireOk`; the audit is right that it
